@@ -390,26 +390,30 @@ func ruleGuardDefs(c *Ctx, rule string) {
 		bad := ""
 		n := 0
 		for _, ret := range returnsOf(fn) {
-			v := w.resolveLoad(ret.Results[0])
-			if isNilConst(v) {
-				continue
-			}
-			n++
-			found := false
-			for _, f := range w.factsAt(ret) {
-				if f.Op == "==" && f.Truth {
-					for _, pair := range [][2]ssa.Value{{f.X, f.Y}, {f.Y, f.X}} {
-						if w.isFieldLoadOf(pair[0], v, "Number") && w.sameKey(pair[1], fn.Params[1]) {
-							found = true
+			// every value the result can take (a direct return in the loop, or a "found"
+			// variable set in it) is nil or an element on its own Number == number edge
+			for _, lf := range w.guardedLeaves(ret.Results[0], ret) {
+				v := lf.val
+				if isNilConst(v) {
+					continue
+				}
+				n++
+				found := false
+				for _, f := range lf.facts {
+					if f.Op == "==" && f.Truth {
+						for _, pair := range [][2]ssa.Value{{f.X, f.Y}, {f.Y, f.X}} {
+							if w.isFieldLoadOf(pair[0], v, "Number") && w.sameKey(pair[1], fn.Params[1]) {
+								found = true
+							}
 						}
 					}
 				}
-			}
-			if !found {
-				bad = "returns " + w.key(v) + " at " + w.instrPos(ret) + " without the test  returned.Number == number"
-			}
-			if !derivesFromTable(w, v, w.Field("allocation", "Allocation", "channelBindings")) {
-				bad = "returns " + w.desc(v) + " at " + w.instrPos(ret) + ", which is not an element read from the live channelBindings table"
+				if !found {
+					bad = "returns " + w.key(v) + " (selected at " + lf.at + ") without the test  returned.Number == number"
+				}
+				if !derivesFromTable(w, v, w.Field("allocation", "Allocation", "channelBindings")) {
+					bad = "returns " + w.desc(v) + " at " + w.instrPos(ret) + ", which is not an element read from the live channelBindings table"
+				}
 			}
 		}
 		if bad == "" && n > 0 {
@@ -433,12 +437,13 @@ func ruleGuardDefs(c *Ctx, rule string) {
 				continue
 			}
 			n++
-			ok := false
-			for _, f := range w.factsAt(ret) {
+			// every path to this return takes an edge on which the handler is nil or has said
+			// yes (the two tests may be separate branches or one `||`)
+			ok, _ := everyPathHas(fn, ret, func(f Fact) bool {
 				// handler == nil
 				if v, isNil, isNF := nilFact(f); isNF && isNil {
 					if _, fl, isL := fieldLoad(v); isL && fl == ph {
-						ok = true
+						return true
 					}
 				}
 				// handler(sourceAddr, peerIP) is true
@@ -446,11 +451,12 @@ func ruleGuardDefs(c *Ctx, rule string) {
 					if call, _ := callOf(f.X); call != nil && call.Call.StaticCallee() == nil && !call.Call.IsInvoke() {
 						if _, fl, isL := fieldLoad(call.Call.Value); isL && fl == ph && len(call.Call.Args) == 2 &&
 							w.sameKey(call.Call.Args[0], fn.Params[1]) && w.sameKey(call.Call.Args[1], fn.Params[2]) {
-							ok = true
+							return true
 						}
 					}
 				}
-			}
+				return false
+			})
 			if !ok {
 				bad = "returns nil at " + w.instrPos(ret) + " although neither 'handler == nil' nor 'handler(sourceAddr, peerIP) is true' holds on that path"
 			}
